@@ -98,6 +98,38 @@ pub mod codec {
         ClientToRelayMsg::from_bytes(content, cache)
     }
 
+    /// Builds the client-side relay connection (`client::conn::Conn`, the sink/stream behind
+    /// [`crate::client::Client`]) on top of an already upgraded TCP stream, without handshake.
+    #[cfg(not(wasm_browser))]
+    pub fn client_conn_over_tcp(
+        tcp: tokio::net::TcpStream,
+        key_cache: KeyCache,
+        protocol_version: ProtocolVersion,
+    ) -> impl n0_future::Sink<ClientToRelayMsg, Error = crate::client::SendError>
+    + n0_future::Stream<Item = Result<RelayToClientMsg, crate::client::RecvError>>
+    + Unpin
+    + Send
+    + 'static {
+        use crate::{
+            client::{
+                conn::Conn,
+                streams::{MaybeTlsStream, ProxyStream},
+            },
+            protos::{relay::MAX_FRAME_SIZE, streams::WsBytesFramed},
+        };
+        Conn {
+            conn: WsBytesFramed {
+                io: tokio_websockets::ClientBuilder::new()
+                    .limits(
+                        tokio_websockets::Limits::default().max_payload_len(Some(MAX_FRAME_SIZE)),
+                    )
+                    .take_over(MaybeTlsStream::Raw(ProxyStream::Raw(tcp))),
+            },
+            key_cache,
+            protocol_version,
+        }
+    }
+
     /// `FrameType::write_to` into a fresh vector.
     pub fn frame_type_to_bytes(frame_type: FrameType) -> Vec<u8> {
         frame_type.write_to(Vec::new())
